@@ -428,7 +428,8 @@ static const std::vector<Triple>& outliers()
                                           {2, 180, 0}, {2, 18, 256}, {257, 6, 0},      {1, 262, 0},        {65537, 6, 0},      {2, 20, 65537}};
     return o;
 }
-static const uint64_t C13_TOTAL = BOX + 8 + 2 * 20 + 4;
+static const uint64_t C13_STRAY = 6;  // stray-directory cases appended at the end of the enumeration
+static const uint64_t C13_TOTAL = BOX + 8 + 2 * 20 + 4 + C13_STRAY;
 
 static e::engine_schema nearest_schema(bool db2, const Triple& t)
 {
@@ -543,6 +544,73 @@ static void prop_c13(const vf::Case& c, Ctx& ctx)
             VF_CHECK(!exists, ctx.describe << ": database_exists() true although loading reports database_not_found");
         }
         ctx.nontrivial = true;
+        return;
+    }
+    if (i >= BOX + 8 + 40 + 4)
+    {
+        // stray directories / files that are not a database must not change what is detected:
+        //   0,1: legacy library + an empty Database2 directory (with / without an unrelated file in it)
+        //   2: Database2 library + a stray p.db without m.db          3: empty directory with only an empty Database2 directory
+        //   4: legacy library + Database2/notes.txt                   5: Database2 library + an unrelated sub-directory
+        uint64_t k = i - (BOX + 8 + 40 + 4);
+        ctx.describe = "stray-entry case " + std::to_string(k);
+        ctx.key = ctx.describe;
+        ctx.label("stray-entries");
+        ctx.nontrivial = true;
+        fs::create_directories(dir);
+        ScratchDir a;
+        auto put_legacy = [&] {
+            {
+                auto db = e::create_database(a.lib(), e::engine_schema::schema_1_13_2);
+            }
+            fs::copy_file(a.lib() + "/m.db", dir + "/m.db");
+            fs::copy_file(a.lib() + "/p.db", dir + "/p.db");
+        };
+        auto put_db2 = [&] {
+            {
+                auto db = e::create_database(a.lib(), e::engine_schema::schema_2_20_3);
+            }
+            fs::create_directories(dir + "/Database2");
+            fs::copy_file(a.lib() + "/Database2/m.db", dir + "/Database2/m.db");
+        };
+        std::optional<e::engine_schema> want;
+        switch (k)
+        {
+            case 0:
+                put_legacy();
+                fs::create_directories(dir + "/Database2");
+                want = e::engine_schema::schema_1_13_2;
+                break;
+            case 1:
+            case 4:
+                put_legacy();
+                fs::create_directories(dir + "/Database2");
+                std::ofstream(dir + "/Database2/notes.txt") << "not a database";
+                want = e::engine_schema::schema_1_13_2;
+                break;
+            case 2:
+                put_db2();
+                std::ofstream(dir + "/p.db") << "";
+                want = e::engine_schema::schema_2_20_3;
+                break;
+            case 3: fs::create_directories(dir + "/Database2"); break;
+            default:
+                put_db2();
+                fs::create_directories(dir + "/Music");
+                want = e::engine_schema::schema_2_20_3;
+                break;
+        }
+        Outcome o = try_load(dir, loaded, what);
+        if (want)
+        {
+            VF_CHECK(o == Outcome::loaded && loaded == *want, ctx.describe << ": a single library with a stray non-database entry next to it -> " << what);
+            VF_CHECK(e::database_exists(dir), ctx.describe << ": database_exists() false");
+        }
+        else
+        {
+            VF_CHECK(o == Outcome::not_found, ctx.describe << ": no database at all -> " << what);
+            VF_CHECK(!e::database_exists(dir), ctx.describe << ": database_exists() true without any database");
+        }
         return;
     }
     if (i >= BOX + 8 + 40)
